@@ -675,6 +675,11 @@ func init() {
 		}
 		return Tuple{sl.N, Iface{}}
 	}
+	s["github.com/u-root/uio/rand.Read"] = s["crypto/rand.Read"]
+	s["github.com/u-root/uio/rand.ReadContext"] = func(in *Interp, fr *frame, a []Value) Value {
+		return stubs["crypto/rand.Read"](in, fr, a[1:])
+	}
+	s["math/rand.Read"] = s["crypto/rand.Read"]
 	s["context.Background"] = func(in *Interp, fr *frame, a []Value) Value {
 		return Iface{T: &opaqueType{"context"}, V: Opaque{"ctx"}}
 	}
